@@ -11,6 +11,8 @@ import (
 	"context"
 	"os"
 	"path/filepath"
+	"reflect"
+	"sort"
 
 	"wa-lang.org/wa/internal/3rdparty/wazero"
 	"wa-lang.org/wa/internal/3rdparty/wazero/api"
@@ -23,6 +25,7 @@ type vfHostCall struct {
 
 type vfWasmInstT struct {
 	rt       wazero.Runtime
+	compiled wazero.CompiledModule
 	mod      api.Module
 	calls    []vfHostCall
 	exited   bool
@@ -34,6 +37,9 @@ type vfWasmExit struct{}
 var vfWasmInsts []*vfWasmInstT
 
 func init() { vfResetHook = vfWasmReset }
+
+// (module (global (export "hg") i32 (i32.const 0)))
+var vfGenvWasm = []byte{0, 'a', 's', 'm', 1, 0, 0, 0, 6, 6, 1, 0x7f, 0, 0x41, 0, 0x0b, 7, 6, 1, 2, 'h', 'g', 3, 0}
 
 func vfWasmReset() {
 	for _, in := range vfWasmInsts {
@@ -56,6 +62,7 @@ func vfWasmLoad(name string) int {
 	if err != nil {
 		panic(err)
 	}
+	in.compiled = compiled
 	builders := map[string]wazero.HostModuleBuilder{}
 	var order []string
 	for _, def := range compiled.ImportedFunctions() {
@@ -81,12 +88,16 @@ func vfWasmLoad(name string) int {
 		}), def.ParamTypes(), def.ResultTypes()).Export(fnName)
 		builders[modName] = hb
 	}
+	// a module may import the immutable global "genv"."hg" (wazero host modules cannot export globals)
+	if genv, err := in.rt.CompileModule(ctx, vfGenvWasm); err == nil {
+		in.rt.InstantiateModule(ctx, genv, wazero.NewModuleConfig().WithName("genv"))
+	}
 	for _, n := range order {
 		if _, err := builders[n].Instantiate(ctx, in.rt); err != nil {
 			panic(err)
 		}
 	}
-	in.mod, err = in.rt.InstantiateModule(ctx, compiled, wazero.NewModuleConfig().WithName(name))
+	in.mod, err = in.rt.InstantiateModule(ctx, compiled, wazero.NewModuleConfig().WithName(name).WithStartFunctions())
 	if err != nil && in.mod == nil {
 		panic(err)
 	}
@@ -166,6 +177,9 @@ func vfWasmSetGlobal(h int, name string, v uint64) {
 }
 
 func vfWasmPages(h int) uint32 {
+	if m := vfWasmInsts[h].mod.Memory(); m == nil || reflect.ValueOf(m).IsNil() {
+		return 0
+	}
 	return vfWasmInsts[h].mod.Memory().Size(context.Background()) / 65536
 }
 
@@ -183,3 +197,22 @@ func vfWasmHostCall(h, i int) (name string, a0, a1 uint64) {
 }
 
 func vfWasmExitCode(h int) (uint32, bool) { return vfWasmInsts[h].exitCode, vfWasmInsts[h].exited }
+
+// vfWasmExports lists the exported functions as "name:params:results" (i I f F per value type), sorted by name.
+func vfWasmExports(h int) []string {
+	tyc := map[api.ValueType]byte{api.ValueTypeI32: 'i', api.ValueTypeI64: 'I', api.ValueTypeF32: 'f', api.ValueTypeF64: 'F'}
+	var out []string
+	for name, def := range vfWasmInsts[h].compiled.ExportedFunctions() {
+		sig := name + ":"
+		for _, t := range def.ParamTypes() {
+			sig += string(tyc[t])
+		}
+		sig += ":"
+		for _, t := range def.ResultTypes() {
+			sig += string(tyc[t])
+		}
+		out = append(out, sig)
+	}
+	sort.Strings(out)
+	return out
+}
